@@ -36,7 +36,7 @@ class P:
         self.saved = {}      # line -> set of "hexkey:tid" that the file legitimately contains
 
     def budget(self, tier):
-        return 300 if tier == "quick" else 6000
+        return 240 if tier == "quick" else 6000
 
     def hist(self, g, rng, proto, tpls_by_addr):
         """history used after the load: data for the saved templates, a fresh announcement + data, an unknown id"""
@@ -80,33 +80,45 @@ class P:
             tpls[a] = list(last.values())
         return " ".join(toks), tpls
 
-    def doc_case(self, g, rng, proto, force_valid=False):
+    def doc_case(self, g, rng, proto, force_valid=False, forced=None):
         # ONE structural defect per document most of the time (a document with several defects is rejected for the first
         # one and tells nothing about the others); 'multi' keeps the old independent mix
-        defect = "valid" if force_valid else rng.choice(["valid", "shardno", "nshards", "nullshard", "nullmap", "nullmap", "misplaced", "multi", "multi"])
-        shardno = rng.choice([31, 33, 0, -1]) if defect == "shardno" else (rng.choice([32] * 6 + [31, 33, 0, -1]) if defect == "multi" else 32)
-        nsh = rng.choice([0, 1, 31, 33]) if defect == "nshards" else (rng.choice([32] * 6 + [0, 1, 31, 33]) if defect == "multi" else 32)
-        one_bad = rng.randrange(32)
+        kinds5 = ["shardno", "nshards", "nullshard", "nullmap", "misplaced"]
+        import itertools
+        pairs = list(itertools.combinations(kinds5, 2))
+        self.doc_i = getattr(self, "doc_i", 0) + 1
+        mode = "valid" if force_valid else ["valid", "one", "pair", "one", "one", "pair", "one", "multi", "pair", "one"][self.doc_i % 10]
+        # defects and their parameters are enumerated, not drawn: every single defect and every PAIR of defects comes up regularly
+        active = set() if mode == "valid" else {kinds5[(self.doc_i // 10) % 5]} if mode == "one" else set(pairs[(self.doc_i // 3) % len(pairs)]) if mode == "pair" else None
+        if forced is not None:
+            active, mode = set(forced[0]), "forced"
+        has = lambda k: active is not None and k in active
+        multi = active is None
+        shardno = rng.choice([31, 33, 0, -1]) if has("shardno") else (rng.choice([32] * 6 + [31, 33, 0, -1]) if multi else 32)
+        nsh = forced[1] if forced is not None and has("nshards") else [33, 31, 33, 0, 1][(self.doc_i // 7) % 5] if has("nshards") else (rng.choice([32] * 6 + [0, 1, 31, 33]) if multi else 32)
+        one_bad = rng.randrange(max(1, nsh))
+        one_bad2 = rng.randrange(max(1, nsh))
+        defect = "multi" if multi else "+".join(sorted(active)) or "valid"
         shards_json, toks, saved, tpls = [], [], set(), {}
         entries = {}
         for _ in range(rng.choice([0, 1, 3, 6]) if not force_valid else rng.choice([2, 4])):
             a = rand_addr(rng)
             t, o = g.rand_tpl(tid=rng.choice([256, 257, 300]), allow_var=False)
             key = a + struct.pack(">H", t.tid)
-            idx = fnv1_32(key) % 32 if not (defect in ("misplaced", "multi") and rng.random() < (0.5 if defect == "misplaced" else 0.1)) else rng.randrange(32)
+            idx = fnv1_32(key) % 32 if not ((has("misplaced") or multi) and rng.random() < (0.5 if has("misplaced") else 0.1)) else rng.randrange(32)
             entries.setdefault(idx, []).append((key, t))
             if idx == fnv1_32(key) % 32:
                 tpls.setdefault(a, []).append(t)
         kinds = []
         for i in range(nsh):
             k = rng.random()
-            if defect == "multi":
+            if multi:
                 kind = "S" if k < 0.85 or i in entries else ("N" if k < 0.93 else "M")
                 if rng.random() < 0.04:
                     kind = rng.choice(["N", "M"])
-            elif defect == "nullshard" and i == one_bad:
+            elif has("nullshard") and i == one_bad:
                 kind = "N"
-            elif defect == "nullmap" and i == one_bad:
+            elif has("nullmap") and i == (one_bad2 if has("nullshard") and one_bad2 != one_bad else one_bad):
                 kind = "M"
             else:
                 kind = "S"
@@ -131,7 +143,7 @@ class P:
         docj = {"Cache": shards_json if not (nsh == 0 and rng.random() < 0.5) else None, "ShardNo": shardno}
         text = json.dumps(docj, separators=(",", ":")).encode()
         doctoks = "%d %s" % (shardno, " ".join(toks))
-        if force_valid or rng.random() < 0.2:
+        if force_valid or (forced is None and rng.random() < 0.2):
             # well-formed JSON of the wrong type / range somewhere: json.Unmarshal reports an error, nothing may be used
             bad = rng.choice([(b'"Timestamp":1600000000', b'"Timestamp":"yesterday"'), (b'"Length":', b'"Length":7000000'),
                               (b'"TemplateID":', b'"TemplateID":-'), (b'{"Templates":{', b'{"Templates":"none","x":{'),
@@ -145,26 +157,41 @@ class P:
 
     def cases(self, tier, rng, budget):
         out = []
+        import itertools
         for proto in ("ipfix", "nf9"):
             g = Gen(proto, go_model(), rng)
+            # every PAIR of structural defects, with one shard too many and one too few where the shard count is part of it
+            for pair in itertools.combinations(["shardno", "nshards", "nullshard", "nullmap", "misplaced"], 2):
+                for nsh in ((33, 31) if "nshards" in pair else (32,)):
+                    out.append(self.doc_case(g, rng, proto, forced=(pair, nsh))[0])
             n = budget // 2
             for i in range(n):
                 k = i % 10
                 if k < 3:       # save / load round trip of a reachable cache
                     s, tpls = self.setup(g, rng, proto)
                     out.append("cachert %s FULL S %s H %s" % (proto, s, self.hist(g, rng, proto, tpls)))
-                elif k == 9 and i % 20 == 9:   # a smaller cache saved over a larger file
+                elif k == 8 and i % 20 == 8:   # a smaller cache saved over a larger file
                     s1, _ = self.setup(g, rng, proto); s1b, _ = self.setup(g, rng, proto)
                     a = rand_addr(rng)
                     t, o = g.rand_tpl(tid=256, nfields=1, allow_var=False)
                     s2 = "%s %s" % (hx(a), hx(g.enc_msg([g.enc_set(g.tpl_set_id(o), g.enc_tpl(t, o))])))
                     out.append("cachert %s OVER S %s %s M %s H %s" % (proto, s1, s1b, s2, self.hist(g, rng, proto, {a: [t]})))
+                elif k == 9 and i % 20 == 9:   # two generations: save, restart, ONE template re-announced differing in ONE respect (nothing
+                    # else changes in that run), save, restart: the re-announced definition must be the one in force
+                    s1, tpls = self.setup(g, rng, proto)
+                    a = rand_addr(rng)
+                    t = Tpl(300, [], [(2, 9 if proto == "ipfix" else 0, 4), (8, 0, 4), (1, 0, 8)])
+                    s1 += " %s %s" % (hx(a), hx(g.enc_msg([g.enc_set(g.tpl_set_id(False), g.enc_tpl(t, False))])))
+                    t2, o2 = g.mutate_tpl(t, False, kind=(i // 20) % 6)
+                    mods = "%s %s" % (hx(a), hx(g.enc_msg([g.enc_set(g.tpl_set_id(o2), g.enc_tpl(t2, o2))])))
+                    tpls2 = dict(tpls); tpls2[a] = [t2]
+                    out.append("cachert %s GEN2 S %s M %s H %s" % (proto, s1, mods, self.hist(g, rng, proto, tpls2)))
                 elif k == 3:    # every crash point of the non-atomic write: every proper prefix of the saved file
                     s, tpls = self.setup(g, rng, proto)
                     out.append("cachert %s PREFIXES S %s H %s" % (proto, s, self.hist(g, rng, proto, tpls)))
                 elif k < 8:     # structurally (in)consistent documents; every fourth: a complete document with one type/range error
                     out.append(self.doc_case(g, rng, proto, force_valid=(i % 4 == 0))[0])
-                elif k == 8:    # byte-level corruption of a valid file
+                elif k == 8 or (k == 9 and i % 20 == 19 and i % 40 == 19):    # byte-level corruption of a valid file
                     line, text = self.doc_case(g, rng, proto)
                     sv = self.saved[line]
                     for _ in range(rng.choice([1, 1, 2, 4])):
@@ -212,7 +239,7 @@ class P:
         return ("per protocol: 30% save/load round trips of caches reached by decoding (several exporters, re-announcements), then "
                 "decoding with the loaded cache; 10% EVERY proper prefix of such a saved file (complete per file); 40% structured "
                 "documents generated from the document type (wrong ShardNo, 0/1/31/33 shards, null shards, null maps, misplaced and "
-"valid entries; one defect per document in 7 of 9 documents, then a 200-template sweep that inserts into every shard); 10% byte-level mutations of valid files; 10% absent / empty / directory. After each load a template "
+"valid entries; one defect per document in half of the documents, exactly two in three of ten, then a 200-template sweep that inserts into every shard); 10% byte-level mutations of valid files; 10% absent / empty / directory. After each load a template "
                 "is announced and data decoded (usability), and the loaded contents are observed through Dump. every case is distinct")
 
     def trusted_base(self):
